@@ -191,6 +191,12 @@ Fixpoint render_items (its : list (lay * item)) (fin : lay) : list N :=
   | (l, it) :: r => (render_lay l ++ render_item it ++ render_items r fin)%list
   end.
 
+(* the implicit skip in front of the next item (or of the end of the file) *)
+Definition code_of (its : list (lay * item)) (fin : lay) : list N :=
+  match its with [] => [] | (_, it) :: r => (render_item it ++ render_items r fin)%list end.
+Definition lead (its : list (lay * item)) (fin : lay) : lay :=
+  match its with [] => fin | (l, _) :: _ => l end.
+
 (* the first character of code (after the leading layout) *)
 Definition first_code (its : list (lay * item)) : option N :=
   match its with [] => None | (_, it) :: _ => hd_error (render_item it) end.
@@ -202,10 +208,24 @@ Definition first_code (its : list (lay * item)) : option N :=
    argument is a name, such as assert!(a > b), is outside this language; println!("..") is a statement.) *)
 Definition args_start_plain (r3 : list (lay * item)) : Prop :=
   match first_code r3 with Some c => name_start_ok c = false /\ c <> 34 | None => True end.
-Definition not_a_call (r : list (lay * item)) : Prop :=
+(* ... or with a simple identifier that is followed (after any layout) by a character that neither
+   continues it nor lets a key-value list go on:  assert!(a > b), dbg!(x), m!(x.y), f!(a + b) *)
+Definition qname_simple (n : qname) : bool := negb (qs0 n) && forallb (fun u => negb (snd u)) (qus n).
+Definition stop_char (c : N) : Prop :=
+  Utab XidContinue c = false /\ name_start_ok c = false /\ c <> 61 /\ c <> 58 /\ c <> 44 /\ c <> 59.
+Definition args_start_ident (r3 : list (lay * item)) (fin : lay) : Prop :=
+  match r3 with
+  | (_, IName n3) :: (_, it4) :: _ =>
+      qname_simple n3 = true /\
+      match hd_error (render_item it4) with Some c => stop_char c | None => False end /\
+      strip_prefix target_word (code_of r3 fin) = None
+  | _ => False
+  end.
+Definition not_a_call (r : list (lay * item)) (fin : lay) : Prop :=
   match r with
   | (_, IChar 33) :: r2 =>
-      first_code r2 = Some 40 -> match r2 with _ :: r3 => args_start_plain r3 | [] => True end
+      first_code r2 = Some 40 ->
+      match r2 with _ :: r3 => args_start_plain r3 \/ args_start_ident r3 fin | [] => True end
   | _ => True
   end.
 
@@ -214,7 +234,7 @@ Definition item_ok (it : item) (r : list (lay * item)) (fin : lay) : Prop :=
   match it with
   | IStmt n l us => qname_ok n = true /\ lay_ok l (34 :: render_msg us ++ 34 :: tail)%list /\ forallb munit_ok us = true
   | IStmtA n a => qname_ok n = true /\ args_ok a tail
-  | IName n => qname_ok n = true /\ name_end tail /\ not_a_call r
+  | IName n => qname_ok n = true /\ name_end tail /\ not_a_call r fin
   | IChar c => is_ws_char c = false /\ name_start_ok c = false /\ no_comment_ahead (c :: tail)
   end.
 
@@ -292,12 +312,6 @@ Qed.
 
 Lemma code_ahead_nil : code_ahead [].
 Proof. split; exact I. Qed.
-
-(* the implicit skip in front of the next item (or of the end of the file) *)
-Definition code_of (its : list (lay * item)) (fin : lay) : list N :=
-  match its with [] => [] | (_, it) :: r => (render_item it ++ render_items r fin)%list end.
-Definition lead (its : list (lay * item)) (fin : lay) : lay :=
-  match its with [] => fin | (l, _) :: _ => l end.
 
 Lemma render_items_lead its fin : render_items its fin = (render_lay (lead its fin) ++ code_of its fin)%list.
 Proof. destruct its as [|[l it] r]; cbn [render_items lead code_of]; [rewrite app_nil_r|]; reflexivity. Qed.
@@ -392,7 +406,7 @@ Lemma option_N_eq_dec (a b : option N) : {a = b} + {a <> b}.
 Proof. decide equality. apply N.eq_dec. Qed.
 
 Lemma log_macro_miss_name n r fin p :
-  qname_ok n = true -> name_end (render_items r fin) -> not_a_call r -> items_ok r fin ->
+  qname_ok n = true -> name_end (render_items r fin) -> not_a_call r fin -> items_ok r fin ->
   run Utab SK r_log_macro NonAtomic false (mkIn (render_name n ++ render_items r fin)%list p) = Fail.
 Proof.
   intros Hn Hend Hnc Hr. unfold r_log_macro. rewrite run_rule. cbn [inner_atomicity]. rewrite run_seq.
@@ -424,21 +438,48 @@ Proof.
              cbn [hd_error] in E40. inversion E40. reflexivity. }
            cbn [code_of]. rewrite Hit2. cbn [app]. rewrite run_str. cbn [Peg.rest strip_prefix N.eqb Pos.eqb pos do_skip].
            destruct Hr2 as (_ & _ & Hr3). rewrite (skip_lead r3 fin _ Hr3).
-           unfold args_start_plain in Hnc. rewrite <- (first_code_head r3 fin) in Hnc.
-           destruct (code_of r3 fin) as [|c t] eqn:Ec; cbn [hd_error] in Hnc.
-           ++ reflexivity.
-           ++ destruct Hnc as (Hns & H34).
-              assert (Hca : code_ahead (c :: t)).
-              { rewrite <- Ec. destruct r3 as [|[l3 it3] r4]; [discriminate|]. cbn [code_of].
-                destruct Hr3 as (_ & Hi3 & _). eapply item_code_ahead; exact Hi3. }
-              rewrite run_seq, run_opt. rewrite target_arg_miss.
-              2:{ unfold target_word. cbn [strip_prefix]. destruct (N.eqb_spec 116 c) as [<-|]; [vm_compute in Hns; discriminate|reflexivity]. }
-              cbn [do_skip]. rewrite (skip_none _ _ Hca). rewrite run_seq, run_opt.
-              assert (Hkvp : forall q, run Utab SK r_kvp_args NonAtomic false (mkIn (c :: t) q) = Fail).
-              { intros q. unfold r_kvp_args. rewrite run_rule. cbn [inner_atomicity]. fold kv_body.
-                rewrite run_seq, run_seq. unfold kv_body at 1. rewrite run_seq. rewrite (kvp_key_miss c t q Hns). reflexivity. }
-              rewrite Hkvp. cbn [do_skip]. rewrite (skip_none _ _ Hca).
-              rewrite (string_literal_miss c t _ NonAtomic H34). reflexivity.
+           destruct Hnc as [Hnc|Hid].
+           { unfold args_start_plain in Hnc. rewrite <- (first_code_head r3 fin) in Hnc.
+             destruct (code_of r3 fin) as [|c t] eqn:Ec; cbn [hd_error] in Hnc.
+             - reflexivity.
+             - destruct Hnc as (Hns & H34).
+               assert (Hca : code_ahead (c :: t)).
+               { rewrite <- Ec. destruct r3 as [|[l3 it3] r4]; [discriminate|]. cbn [code_of].
+                 destruct Hr3 as (_ & Hi3 & _). eapply item_code_ahead; exact Hi3. }
+               rewrite run_seq, run_opt. rewrite target_arg_miss.
+               2:{ unfold target_word. cbn [strip_prefix]. destruct (N.eqb_spec 116 c) as [<-|]; [vm_compute in Hns; discriminate|reflexivity]. }
+               cbn [do_skip]. rewrite (skip_none _ _ Hca). rewrite run_seq, run_opt.
+               assert (Hkvp : forall q, run Utab SK r_kvp_args NonAtomic false (mkIn (c :: t) q) = Fail).
+               { intros q. unfold r_kvp_args. rewrite run_rule. cbn [inner_atomicity]. fold kv_body.
+                 rewrite run_seq, run_seq. unfold kv_body at 1. rewrite run_seq. rewrite (kvp_key_miss c t q Hns). reflexivity. }
+               rewrite Hkvp. cbn [do_skip]. rewrite (skip_none _ _ Hca).
+               rewrite (string_literal_miss c t _ NonAtomic H34). reflexivity. }
+           (* the first argument is a simple identifier followed by a stopping character *)
+           destruct r3 as [|[l3 [n3' l3' us3|n3' a3|n3|c3]] [|[l4 it4] r5]]; cbn [args_start_ident] in Hid; try contradiction.
+           destruct Hid as (Hsimple & Hstop & Htw).
+           destruct Hr3 as (_ & (Hn3 & _) & Hr4).
+           pose proof Hr4 as (Hl4 & Hi4 & _).
+           pose proof (length_item_pos it4) as Hlen4.
+           destruct (render_item it4) as [|c t4] eqn:E4; [cbn in Hlen4; lia|]. cbn [hd_error] in Hstop.
+           destruct Hstop as (Hcont & Hns & H61 & H58 & H44 & H59).
+           assert (Hname : render_name n3 = render_ident (mkId (q0 n3) (map fst (qus n3)))).
+           { unfold qname_simple in Hsimple. apply andb_true_iff in Hsimple. destruct Hsimple as [Hs0 Hus].
+             unfold render_name, render_ident. cbn [i0 ics]. destruct (qs0 n3); [discriminate|]. cbn [sepr app]. f_equal.
+             clear - Hus. induction (qus n3) as [|[d sp] us IH]; cbn [render_units map fst forallb snd] in *; [reflexivity|].
+             apply andb_true_iff in Hus. destruct Hus as [Hsp Hus]. destruct sp; [discriminate|]. cbn [sepr app]. f_equal. apply IH. exact Hus. }
+           assert (Hident : ident_ok (mkId (q0 n3) (map fst (qus n3))) = true).
+           { unfold qname_ok in Hn3. apply andb_true_iff in Hn3. destruct Hn3 as [H0 Hus]. unfold ident_ok. cbn [i0 ics].
+             rewrite H0. cbn [andb]. clear - Hus. unfold units_ok in Hus. induction (qus n3) as [|u us IH]; cbn [forallb map] in *; [reflexivity|].
+             apply andb_true_iff in Hus. destruct Hus as [Hu Hus]. rewrite Hu, IH by exact Hus. reflexivity. }
+           assert (Htext : code_of ((l3, IName n3) :: (l4, it4) :: r5) fin
+                           = (render_ident (mkId (q0 n3) (map fst (qus n3))) ++ render_lay l4 ++ c :: (t4 ++ render_items r5 fin))%list).
+           { cbn [code_of render_item render_items]. rewrite Hname, E4. cbn [app]. reflexivity. }
+           rewrite Htext in *.
+           assert (Hca4 : code_ahead (c :: t4 ++ render_items r5 fin)).
+           { pose proof (item_code_ahead it4 r5 fin Hi4) as H. rewrite E4 in H. exact H. }
+           assert (Hl4' : lay_ok l4 (c :: t4 ++ render_items r5 fin)).
+           { exact Hl4. }
+           rewrite (macro_args_tail_fail_ident _ l4 c _ _ Hident Hl4' Hca4 Hcont Hns H61 H58 H44 H59 Htw). reflexivity.
         -- rewrite str_miss; [reflexivity|]. rewrite first_code_head. exact E40.
     + cbn [code_of]. rewrite str_miss; [reflexivity|].
       pose proof (length_item_pos it1) as Hl. destruct (render_item it1) as [|d t1]; [cbn in Hl; lia|].
